@@ -68,6 +68,14 @@ def to_model(events: list[list]) -> dict:
                 if k3 in rc and rc[k3] != returned:
                     problems.append(f"_impl returned two different values for one graph version/key/args: {k3}")
                 rc[k3] = returned
+        elif kind == "query_exc":
+            sec_idx = e[7]
+            if len(sec_idx) != 1 or at.get(sec_idx[0]) is None:
+                problems.append(f"query that raised {e[6]} with {len(sec_idx)} locked sections (event {ei})")
+            else:
+                expect[at[sec_idx[0]]] = ["miss"]
+            queries.append({"gid": e[2], "key": e[3], "arg": e[4], "version": e[5], "returned": "EXC:" + e[6], "oracle": "EXC:" + e[6], "hit": False,
+                            "origin": None, "nested": e[8], "tid": tid, "stale": False, "raised": e[6]})
         elif kind in ("compute", "clear"):
             pass
         else:
